@@ -96,6 +96,16 @@ TReset ==
     /\ origin' = <<>>
     /\ IF mp' = Map0 /\ StructDefect(store') = "" THEN TRUE ELSE Dev("state", "open", "", 0, FALSE, mp', store', <<>>)
 
+\* a history re-based on the real tree's state after calls that were not logged (wide histories: the
+\* first m-4 insertions of a tree with a large fan-out); the state must be consistent, nothing else is known
+TRebase ==
+    /\ IsEv("rebase")
+    /\ mp' = MapOfLeaves(Ev.leaves)
+    /\ store' = StoreOf(Ev.leaves, Ev.nodes)
+    /\ origin' = <<>>
+    /\ IF Ordered(Ev.leaves) /\ StructDefect(store') = "" THEN TRUE
+       ELSE Dev("structure", "rebase", StructDefect(store'), 0, FALSE, mp', store', <<>>)
+
 TOp ==
     /\ IsEv("op")
     /\ LET real   == MapOfLeaves(Ev.leaves)
@@ -115,7 +125,7 @@ TOp ==
           /\ \A i \in bad : Dev(QDev(Ev.q[i], real), Ev.q[i].q, Shape(Ev.q[i]), i,
                                 GapHit(st, EffKeys(Ev.q[i])), real, st, org)
 
-TraceNext == /\ (TReset \/ TOp)
+TraceNext == /\ (TReset \/ TRebase \/ TOp)
              /\ l' = l + 1
 
 TraceSpec == TraceInit /\ [][TraceNext]_<<svars, l, origin>>
